@@ -1274,6 +1274,56 @@ func cmdLife(args []string) {
 					t.emit(map[string]any{"ev": "Observe", "mw": id, "fp": fp, "cfgnil": false, "cfgfp": "twin-" + id})
 				}
 			}
+			// Twins that differ only in REPETITION, installed with Reconfigure on middlewares that hold c1 (as Config() renders it) - whose lists have the
+			// same length and contain every entry of theirs: a list whose last entry is replaced by a copy of its first one, and the
+			// same list without that entry. However they come about (Reconfigure over c1, NewMiddleware), all four answer alike.
+			for fi, get := range []func(*cors.Config) *[]string{
+				func(c *cors.Config) *[]string { return &c.Origins }, func(c *cors.Config) *[]string { return &c.Methods },
+				func(c *cors.Config) *[]string { return &c.RequestHeaders }, func(c *cors.Config) *[]string { return &c.ResponseHeaders }} {
+				// (c1 in the form Config() renders it: what an application that reads, edits and writes back works with)
+				nfm, err := tryNew(*c1)
+				if err != nil || nfm == nil || nfm.Config() == nil {
+					continue
+				}
+				c1 := nfm.Config()
+				base := *get(c1)
+				if len(base) < 2 || base[0] == base[len(base)-1] {
+					continue
+				}
+				dup, ded := cloneConfig(c1), cloneConfig(c1)
+				l := append([]string(nil), base...)
+				l[len(l)-1] = l[0]
+				*get(dup), *get(ded) = l, append([]string(nil), base[:len(base)-1]...)
+				if _, err := tryNew(*dup); err != nil {
+					continue
+				}
+				if _, err := tryNew(*ded); err != nil {
+					continue
+				}
+				cid := fmt.Sprintf("d%d", fi)
+				var rids []string
+				for k, c := range []*cors.Config{dup, ded} {
+					id := fmt.Sprintf("r%d%d", fi, k)
+					lr.zero(id)
+					lr.reconf(id, "c", cloneConfig(c1))
+					lr.reconf(id, cid, cloneConfig(c))
+					id2 := fmt.Sprintf("n%d%d", fi, k)
+					lr.newMW(id2, cid, *cloneConfig(c))
+					rids = append(rids, id, id2)
+				}
+				for _, dbg := range []bool{false, true} {
+					for _, id := range rids {
+						if lr.mws[id] == nil {
+							continue
+						}
+						if dbg {
+							lr.setDebug(id, true)
+						}
+						fp := fingerprint(lr.mws[id], lr.suite)
+						t.emit(map[string]any{"ev": "Observe", "mw": id, "fp": fp, "cfgnil": false, "cfgfp": "twin-" + id})
+					}
+				}
+			}
 			if len(samples) < 3 {
 				samples = append(samples, map[string]any{"original": cfgJSON(c1), "twin": cfgJSON(twins[1]), "twins": len(twins)})
 			}
